@@ -112,7 +112,9 @@ pub fn run(sc: &Value) -> Vec<Value> {
     let l = catch_unwind(AssertUnwindSafe(|| lex(&Mem(&bytes), &lopts)))
         .unwrap_or_else(|p| json!({"ok": false, "why": format!("lexer panic {}", panic_msg(&p))}));
     // ---- open
-    let r = catch_unwind(AssertUnwindSafe(|| ZipArchive::new(Cursor::new(&bytes[..]))));
+    // (the source may return short reads - scenario field `under`, a Chunked plan: what the reader reports must not depend on it)
+    let under = sc.get("under").cloned().unwrap_or(json!({}));
+    let r = catch_unwind(AssertUnwindSafe(|| ZipArchive::new(crate::eexec::Chunked::new(&bytes[..], &under))));
     let mut m = Map::new();
     m.insert("ev".into(), json!("ROpen"));
     m.insert("L".into(), l.clone());
